@@ -452,6 +452,7 @@ func init() {
 		ID:    "C12",
 		Level: "exploration",
 		Rule: "2-5 tasks share copies of one nonce handle and answer challenges drawn from 1-3 distinct (commitment set, key vector, message) triples; one task runs at a time, parked at 4 yield points inside respond() plus a cooperative mutex wait; schedules are explicit decision lists (seeded; for half of the configurations with at most 3 tasks every schedule is enumerated depth-first); history checked with porcupine against a single-assignment register, plus direct key-recovery and response-verification oracles; " +
+			"8% of the runs are cluster runs in which a Byzantine proposer (simulator) sends two different challenges for one snapshot to real nodes (announcement path; full-challenge path with pre-commitments and a pause of more than a minute): no node may produce valid responses to both; " +
 			"non-trivial = the tasks use at least two different challenges; distinct = canonical-log digests",
 		Components: map[string]string{"crypto.CosiNonce / crypto.CosiSignature (real)": "real", "goroutine scheduling": "simulated: tasks park at hook H7 yield points, one released per decision", "kernel retained-nonce maps": "not in this rig (single-threaded per chain loop in the kernel)"},
 		Assume:     []string{"interleavings finer than the yield points inside respond() are not explored", "A2 curve arithmetic correct"},
